@@ -138,7 +138,19 @@ func newConn(remote map[string]string, fresh bool) *fixture.VConn {
 }
 
 func startServer(cfg *wcfg, uidvStart int) *server {
+	s, err := startServerArmed(cfg, uidvStart, 0, "")
+	if err != nil {
+		fatal("server start: %v", err)
+	}
+	return s
+}
+
+// startServerArmed: kind != "" arms the step counter before the server exists - the start-up (recovery) is the operation.
+func startServerArmed(cfg *wcfg, uidvStart int, failAt int, kind string) (*server, error) {
 	s := &server{cnt: &counter{}}
+	if kind != "" {
+		s.cnt.arm(failAt, kind)
+	}
 	s.dbb = &dbBuilderWrap{in: sqlite3.NewBuilder(), c: s.cnt}
 	s.stb = &storeBuilderWrap{in: &store.OnDiskStoreBuilder{}, c: s.cnt}
 	s.conn = newConn(cfg.Remote, cfg.UserID == "")
@@ -151,10 +163,10 @@ func startServer(cfg *wcfg, uidvStart int) *server {
 		Users: []fixture.User{{Name: "user", Pass: "pass", ID: cfg.UserID, Conn: s.conn}},
 	})
 	if err != nil {
-		fatal("server start: %v", err)
+		return s, err
 	}
 	s.srv = srv
-	return s
+	return s, nil
 }
 
 func dial(addr string) *wire.Client {
@@ -230,6 +242,10 @@ func workerSetup(cfg *wcfg) {
 // workerRun loads the prepared state, performs one operation with the step counter armed and a fault
 // planned, and reports what the client / the connector saw.
 func workerRun(cfg *wcfg) {
+	if cfg.Op == "RECOVER" {
+		workerRecover(cfg)
+		return
+	}
 	s := startServer(cfg, 1000)
 	s1 := dial(s.srv.Addr)
 	if strings.HasSuffix(cfg.Op, "_REC") {
@@ -400,6 +416,42 @@ func workerRun(cfg *wcfg) {
 	e := ""
 	if err != nil {
 		e = err.Error()
+	}
+	emit(map[string]interface{}{"t": "closed", "err": e})
+}
+
+// workerRecover: the operation is the start-up itself on a directory that holds a message marked for deletion (left by
+// a process that was killed before it released the last state showing it): the purge of marked messages and the clean-up
+// of files without a row run with the step counter armed and a fault planned.
+func workerRecover(cfg *wcfg) {
+	kind := cfg.Kind
+	if kind == "" {
+		kind = "none"
+	}
+	s, err := startServerArmed(cfg, 1000, cfg.FailAt, kind)
+	if err != nil {
+		names := s.cnt.disarm()
+		emit(map[string]interface{}{"t": "ack", "status": "NO", "text": "server start: " + err.Error()})
+		if cfg.KillAfterAck {
+			_ = syscall.Kill(os.Getpid(), syscall.SIGKILL)
+			select {}
+		}
+		emit(map[string]interface{}{"t": "done", "steps": names})
+		emit(map[string]interface{}{"t": "startfailed"})
+		return
+	}
+	names := s.cnt.disarm()
+	emit(map[string]interface{}{"t": "ack", "status": "OK", "text": ""})
+	if cfg.KillAfterAck {
+		_ = syscall.Kill(os.Getpid(), syscall.SIGKILL)
+		select {}
+	}
+	emit(map[string]interface{}{"t": "done", "steps": names})
+	emit(map[string]interface{}{"t": "live", "obs": observe(s)})
+	cerr := s.srv.Close(30 * time.Second)
+	e := ""
+	if cerr != nil {
+		e = cerr.Error()
 	}
 	emit(map[string]interface{}{"t": "closed", "err": e})
 }
